@@ -1516,6 +1516,36 @@ def match_v2_tie(ctx, model_ok):
                     del rb.Metadata.cb
             fmf = ";".join(hx(nm) + "=" + ",".join(hx(loc) + ":" + oracle.read(loc).hex() for loc, _sz in cs)
                            for nm, cs in fm.items()) or "-"
+            # the PROPERTY on this run, judged by the reference (C14: only verified copies; C13: a verifying candidate is placed)
+            try:
+                info = oracle.bdecode_strict(raw)[b"info"]
+                lay = oracle.v2_layout(info)
+                one = len(lay) == 1 and lay[0][0] == ("n",)
+                recorded = {("n",) if one else ("n",) + c: (ln, rt) for c, ln, rt in lay}
+            except Exception:  # noqa  (a tampered root of another type: the reference layout does not apply)
+                recorded = None
+            if recorded is not None and im != "none":
+                desc = {"pl": pl, "files": "n (single file)" if single else ["/".join(c) for c in comps], "sizes": sizes,
+                        "metafile": how, "tampered": tamper, "metafile_hex": raw.hex() if len(raw) < 1500 else raw[:700].hex() + "...",
+                        "candidates": {os.path.relpath(loc, cdir): len(oracle.read(loc)) for cs in fm.values() for loc, _ in cs}}
+                placed = set()
+                for src, rel in calls:
+                    content = oracle.read(src)
+                    want = recorded.get(tuple(rel.split(os.sep)))
+                    placed.add(tuple(rel.split(os.sep)))
+                    if want is None:
+                        ctx.fail("v2-copy-to-a-path-the-metafile-does-not-assign", desc, "copies only to paths of the file tree", rel)
+                    elif len(content) != want[0]:
+                        ctx.fail("v2-copied-file-length-differs", desc, "a copied candidate has exactly the recorded length",
+                                 {"to": rel, "from": os.path.relpath(src, cdir), "size": len(content), "recorded_length": want[0]})
+                    elif content and oracle.pieces_root(content) != want[1]:
+                        ctx.fail("v2-unverified-copy", desc, "a copied candidate has the recorded pieces root",
+                                 {"to": rel, "from": os.path.relpath(src, cdir), "size": len(content)})
+                for rel, (ln, rt) in recorded.items():
+                    if ln > 0 and isinstance(rt, bytes) and rel not in placed and \
+                            any(sz == ln and oracle.pieces_root(oracle.read(loc)) == rt for loc, sz in fm.get(rel[-1], [])):
+                        ctx.fail("v2-verifying-candidate-not-placed", desc, "an entry for which a verifying candidate is indexed is copied",
+                                 {"entry": "/".join(rel), "recorded_length": ln})
             lines.append(("16384", str(mpl), raw.hex(), fmf))
             impl.append(im)
             descs.append({"pl": pl, "sizes": sizes, "files": "n (single file)" if single else ["/".join(c) for c in comps],
